@@ -92,4 +92,5 @@ func genericPack(c *Ctx) {
 	ruleFirstDecides(c, "G-FIRST-DECIDES", pkgs)
 	ruleFormatData(c, "G-FORMAT-DATA", pkgs)
 	ruleNilBreak(c, "G-NIL-ELEMENT-BREAK", pkgs)
+	ruleWalkCut(c, "G-WALK-CUT", pkgs, 0)
 }
